@@ -575,3 +575,15 @@ pub fn is_premul(p: u32) -> bool {
 pub fn hex(p: u32) -> String {
     format!("{:#010x}", p)
 }
+
+/// the same source with its user-space-to-source-space transform preceded by `pre`
+pub fn moved_source<'a>(s: &Source<'a>, pre: &Transform) -> Source<'a> {
+    match s.clone() {
+        Source::Solid(c) => Source::Solid(c),
+        Source::Image(i, e, fl, t) => Source::Image(i, e, fl, pre.then(&t)),
+        Source::RadialGradient(g, sp, t) => Source::RadialGradient(g, sp, pre.then(&t)),
+        Source::TwoCircleRadialGradient(g, sp, c1, r1, c2, r2, t) => Source::TwoCircleRadialGradient(g, sp, c1, r1, c2, r2, pre.then(&t)),
+        Source::LinearGradient(g, sp, t) => Source::LinearGradient(g, sp, pre.then(&t)),
+        Source::SweepGradient(g, sp, a, b, t) => Source::SweepGradient(g, sp, a, b, pre.then(&t)),
+    }
+}
